@@ -6,7 +6,9 @@
 (* The state is the set of presentation changes applied; each action adds one:                   *)
 (*   blank / indent / tabindent / trail / fullc / eolc / blockc   on a line                      *)
 (*   spb / spa (space before / after an operator, comma or bracket), up (flip case) on a piece   *)
+(*   rm   (remove a blank of the base text next to an operator, `=` / `:=` or a comma)            *)
 (*   inc  (move a run of whole top-level statements into an included file)                       *)
+(*   nofinalnl (the main file ends without a line end)                                           *)
 (* Render gives the physical lines of the main file and of the included file.  The abstraction   *)
 (* function (the pieces in order, ignoring the annotations) is unchanged by every action.        *)
 EXTENDS Naturals, Sequences, FiniteSets, TLC, Json, IOUtils
@@ -20,13 +22,18 @@ Act(a, i, j) == [a |-> a, i |-> i, j |-> j]
 LineKinds == {"blank", "indent", "tabindent", "trail", "fullc", "eolc", "blockc", "blockc2", "blockc3"}
 LineActs == {Act(a, i, 0) : a \in LineKinds, i \in 1..NL}
 PActs(i, j) == LET p == Lines[i][j] IN
-                 (IF p.t \in {"op", "comma"} THEN {Act("spb", i, j), Act("spa", i, j)} ELSE {})
+                 (IF p.t \in {"op", "comma", "asg"} THEN {Act("spb", i, j), Act("spa", i, j)} ELSE {})
+                 \* a blank of the base text that stands next to an operator, `=`/`:=` or a comma may also be removed
+                 \cup (IF p.t = "sp" /\ ( (j > 1 /\ Lines[i][j - 1].t \in {"op", "comma", "asg"})
+                                         \/ (j < Len(Lines[i]) /\ Lines[i][j + 1].t \in {"op", "comma", "asg"}) )
+                      THEN {Act("rm", i, j)} ELSE {})
                  \cup (IF p.t = "lb" THEN {Act("spa", i, j)} ELSE {})
                  \cup (IF p.t = "rb" THEN {Act("spb", i, j)} ELSE {})
                  \cup (IF p.u # p.s THEN {Act("up", i, j)} ELSE {})
 PieceActs == UNION { UNION { PActs(i, j) : j \in 1..Len(Lines[i]) } : i \in 1..NL }
 IncActs == {Act("inc", Base.runs[r][1], Base.runs[r][2]) : r \in 1..Len(Base.runs)}
-AllActs == LineActs \cup PieceActs \cup IncActs
+\* the source text ends without a line end
+AllActs == LineActs \cup PieceActs \cup IncActs \cup {Act("nofinalnl", 0, 0)}
 
 VARIABLE acts
 Init == acts = {}
@@ -43,7 +50,8 @@ Cat(ss) == IF ss = <<>> THEN "" ELSE Head(ss) \o Cat(Tail(ss))
 
 PieceText(i, j) ==
     LET p == Lines[i][j] IN
-    (IF Has("spb", i, j) THEN " " ELSE "") \o (IF Has("up", i, j) THEN p.u ELSE p.s) \o (IF Has("spa", i, j) THEN "  " ELSE "")
+    IF Has("rm", i, j) THEN ""
+    ELSE (IF Has("spb", i, j) THEN " " ELSE "") \o (IF Has("up", i, j) THEN p.u ELSE p.s) \o (IF Has("spa", i, j) THEN "  " ELSE "")
 
 StmtLine(i) ==
     (IF Has("indent", i, 0) THEN "     " ELSE IF Has("tabindent", i, 0) THEN "\t" ELSE "")
@@ -70,5 +78,5 @@ Inc  == IF IncAct.a = "none" THEN <<>> ELSE PhysRange(IncAct.i, IncAct.j)
 
 \* abstraction: the pieces in order; no action touches it (Lines is constant) — stated as an
 \* invariant on the rendering: removing the annotation texts gives the base rendering
-Emit == PrintT(ToJson([acts |-> acts, main |-> Main, inc |-> Inc]))
+Emit == PrintT(ToJson([acts |-> acts, main |-> Main, inc |-> Inc, final_newline |-> ~Has("nofinalnl", 0, 0)]))
 =============================================================================
